@@ -127,6 +127,12 @@ def _const_method_writes(prog, f, fam):
     def this_rooted(n):
         return [r for r in flow.root(n) if r[0] == "this"]
 
+    def written_this_rooted(n):
+        t = n.strip_all()
+        if t.k == "DeclRefExpr" and t.decl and t.decl.get("k") == "local" and not (t.decl.get("dt") or "").rstrip().endswith("&"):
+            return []         # `++w`, `p = q` on a local pointer / iterator / value: the variable changes, not what it points into
+        return this_rooted(n)
+
     # recognised idiom: a lock_guard / unique_lock / scoped_lock on a mutex member; what it precedes is serialised
     locks = []
     for v in f.walk():
@@ -162,11 +168,11 @@ def _const_method_writes(prog, f, fam):
                 bad.append((n.line, "c-cast-removes-const", "C-style cast removes const: %s" % n.text()))
         # (iii) writes / non-const uses rooted at this
         if n.k in ("BinaryOperator", "CompoundAssignOperator") and n.op and n.op.endswith("=") and n.op not in ("==", "!=", "<=", ">="):
-            r = this_rooted(n.c[0])
+            r = written_this_rooted(n.c[0])
             if r:
                 bad.append((n.line, "write:%s" % describe(r), "assignment through object state: %s" % n.text()))
         if n.k == "UnaryOperator" and n.op in ("++", "--") and n.c:
-            r = this_rooted(n.c[0])
+            r = written_this_rooted(n.c[0])
             if r:
                 bad.append((n.line, "write:%s" % describe(r), "increment of object state: %s" % n.text()))
         if n.is_call() and n.callee:
